@@ -54,31 +54,32 @@ func (w *world) earlyChan(id string) chan struct{} {
 
 // originEarly serves one request in the early-answering way. It returns the upload as received and
 // false when the exchange does not qualify (then the caller answers the ordinary way).
-func (e *Ex) originEarly(c net.Conn, req *http.Request, id string, it *item) (upload []byte, readErr error, closeAfter bool, handled bool) {
+func (e *Ex) originEarly(c net.Conn, req *http.Request, id string, it *item, record func([]byte, error)) (readErr error, closeAfter bool, handled bool) {
 	n := it.n("ea", 0)
 	if !earlyOK(it) {
-		return nil, nil, false, false
+		return nil, false, false
 	}
 	full, closeAfter := originResponse(id, it)
 	headLen := bytes.Index(full, []byte("\r\n\r\n")) + 4
 	if len(full)-headLen < 2 {
-		return nil, nil, false, false
+		return nil, false, false
 	}
 	first := make([]byte, n)
 	k, err := io.ReadFull(req.Body, first)
-
 	if err != nil {
 		// the upload is shorter than announced: answer the ordinary way with what there is
 		rest, _ := io.ReadAll(req.Body)
+		record(append(first[:k], rest...), nil)
 		c.Write(full)
-		return append(first[:k], rest...), nil, closeAfter, true
+		return nil, closeAfter, true
 	}
 	cut := headLen + (len(full)-headLen)/2
 	c.Write(full[:cut]) // the complete head and the first half of the framed body
 	close(e.w.earlyChan(id))
 	rest, err := io.ReadAll(req.Body) // the rest of the upload, relayed while the response is under way
+	record(append(first, rest...), err)
 	c.Write(full[cut:])
-	return append(first, rest...), err, closeAfter, true
+	return err, closeAfter, true
 }
 
 // sendGated writes the request head and the first half of the body, waits until the origin has
